@@ -85,6 +85,10 @@ def build_pool():
         ("edw_dc1", edw(cc.PoweredPhaseSpace(1))),
         ("edw_dc3", edw(cc.PoweredPhaseSpace(3))),
         ("edw_dc1_again", edw(cc.PoweredPhaseSpace(1))),
+        # attributes that cannot be pickled: no cache entry can be written, the call must still return doit()
+        ("edw_lambda", edw(cc.lambda_pair()[0])),
+        ("edw_closure1", edw(cc.closure_factory(1))),
+        ("edw_closure3", edw(cc.closure_factory(3))),
     ]
     return pool
 
@@ -161,12 +165,15 @@ def run_attr_pair(kind, order, forked, base):
                     doc = {"ok": bool(isinstance(ret, sp.Basic) and same(ret, want[which])), "exc": None}
                 except Exception as exc:  # noqa: BLE001
                     doc = {"ok": False, "exc": type(exc).__name__}
+            left = [f for f in os.listdir(root) if f.endswith(".tmp")] if os.path.isdir(root) else []
+            if doc["ok"] and left:
+                return n, "call %d (on %s of the pair) left_temp_file %s behind" % (pos, "AB"[which], left[0]), not picklable
+            if doc["ok"] and not picklable and [f for f in os.listdir(root) if f.endswith(".pkl")]:
+                return n, "call %d: an entry exists although the pair cannot be pickled" % pos, True
             if not doc["ok"]:
-                if doc["exc"] and not picklable:
-                    return n, None, True      # unpicklable expression: recorded, not a C16 alarm (see runner)
                 what = ("raised %s" % doc["exc"]) if doc["exc"] else \
                     "returned something else than its own doit() (the unfolding of the other expression?)"
-                return n, "call %d (on %s of the pair) %s" % (pos, "AB"[which], what), False
+                return n, "call %d (on %s of the pair) %s" % (pos, "AB"[which], what), not picklable
     finally:
         shutil.rmtree(root, ignore_errors=True)
     return n, None, False
@@ -211,6 +218,13 @@ class World:
         self.did = []           # class id -> result id
         for c, r in enumerate(self.reps):
             self.did.append(self.res_id(self.doits[r], add=True))
+        self.pick = []          # class id -> can (expr, doit) be pickled?
+        for r in self.reps:
+            try:
+                pickle.dumps((self.exprs[r], self.doits[r]))
+                self.pick.append(1)
+            except Exception:  # noqa: BLE001
+                self.pick.append(0)
         self.fatal = None
         try:
             self.keystr = [get_readable_hash(self.exprs[r]) for r in self.reps]
@@ -568,6 +582,15 @@ PUT_KINDS = ["legacy_own", "legacy_other", "valid_other", "valid_trailing", "jun
 
 
 def put_bytes(w: World, op):
+    try:
+        return _put_bytes(w, op)
+    except (pickle.PicklingError, AttributeError, TypeError):
+        # the content would contain an expression that cannot be pickled: nobody can have written
+        # such a file; a legacy-format file takes its place (the harness classifies what it wrote)
+        return pickle.dumps(w.doits[op.get("src", op["e"])])
+
+
+def _put_bytes(w: World, op):
     e, d = w.exprs[op["e"]], w.doits[op["e"]]
     kind = op["kind"]
     if kind == "legacy_own":
@@ -631,16 +654,22 @@ def execute(w: World, hist, root):
             c = w.cid[op["e"]]
             n = len(outcomes)
             acts = ["Spawn %d" % c, "RunTo %d AtEnd" % n]
+            unp = not w.pick[c]
+            tmp_before = set(f for f in os.listdir(root) if f.endswith(".tmp")) if os.path.isdir(root) else set()
             try:
                 ret = asy.perform_cached_doit(w.exprs[op["e"]], root)
                 d = w.doits[op["e"]]
                 ok = isinstance(ret, sp.Basic) and same(ret, d)
                 outcomes.append(w.res_id(ret))
-                oracle.append({"op": len(obs), "e": w.names[op["e"]], "ok": bool(ok),
+                oracle.append({"op": len(obs), "e": w.names[op["e"]], "ok": bool(ok), "unp": unp,
                                "what": None if ok else "returned object id %d instead of doit()" % w.res_id(ret)})
+                left = set(f for f in os.listdir(root) if f.endswith(".tmp")) - tmp_before
+                if left:
+                    oracle.append({"op": len(obs), "e": w.names[op["e"]], "ok": False, "unp": unp,
+                                   "what": "left_temp_file %s behind" % sorted(left)[0]})
             except Exception as exc:  # noqa: BLE001
                 outcomes.append(3)
-                oracle.append({"op": len(obs), "e": w.names[op["e"]], "ok": False,
+                oracle.append({"op": len(obs), "e": w.names[op["e"]], "ok": False, "unp": unp,
                                "what": "raised %s" % type(exc).__name__})
         elif kind == "trunc":
             c = w.cid[op["e"]]
@@ -684,15 +713,18 @@ def execute(w: World, hist, root):
         elif kind == "crash_call":
             c = w.cid[op["e"]]
             n = len(outcomes)
-            if op["how"] in ("exit", "raise"):
+            if op["how"] in ("exit", "raise") and not w.pick[c]:
+                # the injected dump fails at pickle.dumps exactly like the real one: an ordinary call
+                acts = ["Spawn %d" % c, "RunTo %d AtEnd" % n]
+            elif op["how"] in ("exit", "raise"):
                 acts = ["Spawn %d" % c, "RunTo %d AtDump" % n, "Chunk %d" % n, "Crash %d" % n]
             else:
                 acts = ["Spawn %d" % c, "RunTo %d AtReplace" % n, "Crash %d" % n]
             doc = crash_call(w, root, op["e"], op["n"], op["how"])
             outcomes.append(doc["res"])
             if doc["ok"] is not None:
-                oracle.append({"op": len(obs), "e": w.names[op["e"]], "ok": bool(doc["ok"]),
-                               "what": None if doc["ok"] else "crash_call child: res %s %s" % (doc["res"], doc.get("exc"))})
+                oracle.append({"op": len(obs), "e": w.names[op["e"]], "ok": bool(doc["ok"]), "unp": not w.pick[c],
+                               "what": None if doc["ok"] else ("raised %s in " % doc.get("exc") if doc.get("exc") else "") + "crash_call child: res %s %s" % (doc["res"], doc.get("exc"))})
         elif kind == "conc":
             base = len(outcomes)
             acts = ["Spawn %d" % w.cid[pi] for pi in op["es"]]
@@ -702,8 +734,8 @@ def execute(w: World, hist, root):
             docs = conc_calls(w, root, op["es"], op["sched"])
             for pi, doc in zip(op["es"], docs):
                 outcomes.append(doc["res"])
-                oracle.append({"op": len(obs), "e": w.names[pi], "ok": bool(doc["ok"]),
-                               "what": None if doc["ok"] else "concurrent call: res %s %s trail %s"
+                oracle.append({"op": len(obs), "e": w.names[pi], "ok": bool(doc["ok"]), "unp": not w.pick[w.cid[pi]],
+                               "what": None if doc["ok"] else ("raised %s in " % doc.get("exc") if doc.get("exc") else "") + "concurrent call: res %s %s trail %s"
                                % (doc["res"], doc.get("exc"), doc.get("trail"))})
         else:
             raise ValueError(kind)
@@ -730,7 +762,8 @@ def gen_histories(w: World, seed, tier, budget, sizes):
     pairs = [("edw_std", "edw_sw"), ("edw_std", "edw_cx"), ("edw_sw", "edw_cx"), ("cs_x", "cs_xpos"),
              ("cs_xpos", "cs_xneg"), ("cs_x", "cs_xreal"), ("edw_std", "edw_std_again"), ("bms", "bms_again"),
              ("edw_std", "bms"), ("sum_edw", "sum_edw_std"), ("edw_fn2", "edw_fn3"), ("edw_dc1", "edw_dc3"),
-             ("edw_dc1", "edw_dc1_again")]
+             ("edw_dc1", "edw_dc1_again"), ("edw_lambda", "edw_std"), ("edw_closure1", "edw_closure3"),
+             ("edw_std", "edw_closure1")]
     # the three refutation witnesses of the pinned variant, on real expressions
     add("witness_collision", [call("edw_std"), call("edw_sw")])
     add("witness_collision", [call("cs_xpos"), call("cs_xneg")])
@@ -881,9 +914,9 @@ def measure_sizes(w: World, base):
         try:
             asy.perform_cached_doit(w.exprs[i], root)
             fs = [f for f in os.listdir(root) if f.endswith(".pkl")]
-            sizes[n] = os.path.getsize(os.path.join(root, fs[0])) if fs else len(pickle.dumps((w.exprs[i], w.doits[i])))
+            sizes[n] = os.path.getsize(os.path.join(root, fs[0])) if fs else 200
         except Exception:  # noqa: BLE001
-            sizes[n] = len(pickle.dumps((w.exprs[i], w.doits[i])))
+            sizes[n] = 200
     return sizes
 
 
@@ -902,10 +935,11 @@ def write_cases(w: World, mode, records):
             f.write("Set Printing Width 1000000.\nSet Printing Depth 1000000.\n")
             f.write("Definition ktab : list nat := [%s].\n" % "; ".join(map(str, w.ktab)))
             f.write("Definition dtab : list nat := [%s].\n" % "; ".join(map(str, w.did)))
+            f.write("Definition ptab : list nat := [%s].\n" % "; ".join(map(str, w.pick)))
             for r in records[k:k + CASES_PER_FILE]:
                 ops = coq_ops(r["mops"])
-                f.write("Eval vm_compute in (history Robust ktab dtab %d %s).\n" % (len(w.keys), ops))
-                f.write("Eval vm_compute in (history Pinned ktab dtab %d %s).\n" % (len(w.keys), ops))
+                f.write("Eval vm_compute in (history Robust ktab dtab ptab %d %s).\n" % (len(w.keys), ops))
+                f.write("Eval vm_compute in (history Pinned ktab dtab ptab %d %s).\n" % (len(w.keys), ops))
         files.append(name)
     return files
 
@@ -1035,8 +1069,11 @@ def cmd_run(seed, tier, mode, budget):
                     n_attr += n
                     if unp and kind not in unpicklable:
                         unpicklable.append(kind)
+                    if kind in ("closure", "lambda") and kind not in unpicklable:
+                        unpicklable.append(kind)
                     if problem:
-                        failures.append({"signature": "prop:attribute_pair:%s" % ("raised" if "raised" in problem else "wrong_value"),
+                        failures.append({"signature": "unpicklable_expression_raises" if (unp and "raised" in problem) else
+                                         "prop:attribute_pair:%s" % ("raised" if "raised" in problem else "wrong_value"),
                                          "what": "pair differing only in a non-SymPy attribute (%s), order %s%s: %s [hash mode %s]"
                                          % (kind, "".join("AB"[i] for i in order), ", later processes" if forked else "", problem, mode),
                                          "case": {"kind": "attrpair", "mode": mode, "hashseed": hs, "pair": kind,
@@ -1054,7 +1091,8 @@ def cmd_run(seed, tier, mode, budget):
             for o in oracle:
                 if not o["ok"]:
                     failures.append({
-                        "signature": "prop:%s:%s" % (h["family"], o["what"].split(" ")[0]),
+                        "signature": "unpicklable_expression_raises" if (o.get("unp") and o["what"].startswith("raised"))
+                        else "prop:%s:%s" % (h["family"], o["what"].split(" ")[0]),
                         "what": "%s: call on %s at op %d %s [hash mode %s]" % (h["family"], o["e"], o["op"], o["what"], mode),
                         "case": {"kind": "history", "mode": mode, "hashseed": os.environ.get("PYTHONHASHSEED"),
                                  "family": h["family"], "ops": h["ops"], "cold": bool(h.get("cold")),
@@ -1065,7 +1103,8 @@ def cmd_run(seed, tier, mode, budget):
         ham = []
         runs = [(2, 30, False), (4, 30, True)] if tier == "quick" else \
             [(2, 200, False), (3, 200, True), (4, 300, True), (4, 300, False)]
-        group = [P[n] for n in ("edw_std", "edw_sw", "edw_cx", "edw_std_again", "cs_xpos", "cs_xneg", "bms")]
+        group = [P[n] for n in ("edw_std", "edw_sw", "edw_cx", "edw_std_again", "cs_xpos", "cs_xneg", "bms", "edw_lambda",
+                                "edw_closure1")]
         ncalls_h = n_attr
         if budget == "lite":
             runs = runs[:1]
